@@ -18,6 +18,9 @@
 //	     ports: - | 80:STRICT,8080:nil,...
 //	q <ns> <labels> <svcNs> <ports>                      -> M=.. PP=.. Q=.. NS=.. G=.. BE=.. CFG=..
 //	chk <ns> <labels> <port> <epTLS 0|1> <dr>            -> 0|1        dr: nil|DISABLE|SIMPLE|MUTUAL|ISTIO_MUTUAL
+//	cv <i> <j|-> <k|->                                   -> convertPeerAuthentication(pas[i], pas[j], pas[k]) (direct)
+//	ks <i,j,...>                                         -> convertedSelectorPeerAuthentications([pas[i],...]) (direct)
+//	go <i,j,...>                                         -> getOldestPeerAuthn([pas[i],...]) (direct)
 //	il <ns> <labels>                                     -> chains of the real virtualInbound listener (inbound.go)
 //	aq <ns> <labels> <ports>                             -> K=.. P=.. D=..   (ambient, see ambient.go)
 package main
@@ -209,6 +212,21 @@ func (s *sut) apply(f []string) (out string) {
 		}
 		p, _ := strconv.ParseUint(f[3], 10, 32)
 		return wire.B(s.check(wire.Dec(f[1]), parseLabels(f[2]), uint32(p), f[4] == "1", f[5]))
+	case "cv":
+		if len(f) != 4 {
+			return "bad-op"
+		}
+		return s.directConvert(f[1], f[2], f[3])
+	case "ks":
+		if len(f) != 2 {
+			return "bad-op"
+		}
+		return s.directKeys(wire.DecList(f[1]))
+	case "go":
+		if len(f) != 2 {
+			return "bad-op"
+		}
+		return s.directOldest(wire.DecList(f[1]))
 	case "il":
 		if len(f) != 3 {
 			return "bad-op"
